@@ -22,6 +22,7 @@ INV_PROP = {
     'committed_entry_changed': 'C04', 'log_matching': 'C04', 'leader_commit_old_term': 'C04',
     # C05
     'no_convergence': 'C05',
+    'log_empty': 'C09',
 }
 
 
@@ -133,6 +134,15 @@ class RaftOracle(object):
         v = self.views[host.idx]
         v.up = False
         if host.node is not None:
+            node = host.node
+            if host.doomed:
+                # killed in the middle of an event: commit-index advances made earlier in this very
+                # event were real; at a storage-op instant entries <= commit index are in the log
+                log = log_of(node)
+                if len(log):
+                    c = node.raftCommitIndex
+                    self._record_commits(host, node, log, v, c, priv(node, 'SyncObj', 'raftState'), node.raftCurrentTerm)
+                    v.commit = max(v.commit, c)
             try:
                 v.last_log = [norm(e) for e in log_of(host.node)[:]]
             except HarnessError:
@@ -159,6 +169,8 @@ class RaftOracle(object):
             self.leaders[term] = host.idx
             # leader completeness: every reported-committed entry is in its log or snapshot
             log = log_of(node)
+            if len(log) == 0:
+                return
             base = log[0][1]
             last = log[-1][1]
             G = self.G
@@ -189,6 +201,11 @@ class RaftOracle(object):
         node = host.node
         v = self.views[host.idx]
         log = log_of(node)
+        if len(log) == 0:
+            # the node emptied its own log (every later tick raises IndexError): recorded, judged by C09
+            w.probe('log_empty')
+            self.flag('log_empty', 'host %d has an empty log' % host.idx)
+            return
         commit = node.raftCommitIndex
         applied = node.raftLastApplied
         term = node.raftCurrentTerm
@@ -209,6 +226,33 @@ class RaftOracle(object):
                 self.flag('two_leaders', 'hosts %d and %d both lead term %d' % (prev, host.idx, term))
             self.leaders[term] = host.idx
         # commits -> G
+        self._record_commits(host, node, log, v, commit, state, term, fresh)
+        # C04 (c): committed entries this node still holds equal G
+        sig = (log[0][1], log[-1][1], log[-1][2], len(log))
+        if sig != v.sig or commit != v.commit:
+            v.sig = sig
+            base = sig[0]
+            G = self.G
+            top = min(commit, sig[1])
+            ents = log[:]
+            for e in ents:
+                p = e[1]
+                if p > top:
+                    break
+                g = G.get(p)
+                if g is not None and norm(e) != g:
+                    self.flag('committed_entry_changed',
+                              'host %d holds a different entry at committed position %d' % (host.idx, p),
+                              dict(pos=p, have=repr(e)[:100], known=repr(g)[:100]))
+                    break
+            if self.check_log_matching:
+                self._log_matching(host, ents)
+        # C01: applies
+        self._applies(host, node, v, applied, loads)
+        v.commit, v.applied, v.term, v.state = commit, applied, term, state
+
+    def _record_commits(self, host, node, log, v, commit, state, term, fresh=False):
+        w = self.w
         if commit > v.commit or fresh:
             lo = (v.commit if not fresh else 1)
             if commit > lo:
@@ -235,29 +279,6 @@ class RaftOracle(object):
                         self.tainted_from = p
             if newly:
                 self._majority(host, node, log, newly, state, term)
-        # C04 (c): committed entries this node still holds equal G
-        sig = (log[0][1], log[-1][1], log[-1][2], len(log))
-        if sig != v.sig or commit != v.commit:
-            v.sig = sig
-            base = sig[0]
-            G = self.G
-            top = min(commit, sig[1])
-            ents = log[:]
-            for e in ents:
-                p = e[1]
-                if p > top:
-                    break
-                g = G.get(p)
-                if g is not None and norm(e) != g:
-                    self.flag('committed_entry_changed',
-                              'host %d holds a different entry at committed position %d' % (host.idx, p),
-                              dict(pos=p, have=repr(e)[:100], known=repr(g)[:100]))
-                    break
-            if self.check_log_matching:
-                self._log_matching(host, ents)
-        # C01: applies
-        self._applies(host, node, v, applied, loads)
-        v.commit, v.applied, v.term, v.state = commit, applied, term, state
 
     def _index_G(self, p, e):
         d = self.app.decode(e[0])
@@ -442,7 +463,8 @@ class RaftOracle(object):
 
     def summary(self):
         return dict(commits=self.commits, commit_events=self.commit_events, commits_after_fault=self.commits_after_fault, leader_changes=self.leader_changes,
-                    terms=len(self.leaders), submissions=len(self.subs),
+                    terms=len(self.leaders), terms_with_candidate=len(self.terms_with_candidate),
+                    submissions=len(self.subs),
                     callbacks=sum(len(x) for x in self.cbs.values()),
                     success=len(self.success_tags), failed=len(self.failed_tags),
                     state_checks=self.n_state_checks, majority_checks=self.n_majority_checks,
